@@ -148,6 +148,7 @@ func (c *Controller) Put(r record.Record) (err error) {
 		return errors.New("storage returned nil record after successful put operation")
 	}
 
+	verifPoint("put.beforeNotify")
 	c.notifySubscribers(r)
 
 	return nil
@@ -200,6 +201,7 @@ func (c *Controller) PushUpdate(r record.Record) {
 			return
 		}
 
+		verifPoint("push.beforeNotify")
 		c.notifySubscribers(r)
 	}
 }
